@@ -320,13 +320,19 @@ def run(ctx):
     trace = ctx.path("trace.ndjson")
     rec = vlib.run_harness(binp, ["record", ctx.seed, ctx.tier, trace], timeout=1500)
     ctx.note("record: %s" % json.dumps({"events": rec["events"], "by_kind": rec["by_kind"], "fonts": rec["fonts_selected"]}))
-    for need in ("Glyph", "Hmtx", "Dir", "Table", "GlyfSum", "GlyfTable", "Decode", "B128", "U255"):
-        if not rec["by_kind"].get(need):
-            raise vlib.ToolError("vacuous trace: no %s event recorded" % need)
-    for need in ("glyph_events_simple", "glyph_events_composite", "glyph_events_empty", "collections", "fonts_glyf_null_transform",
-                 "fonts_elided_tail_lsb_with_nhm_lt_n", "fixture_transformed_glyf_tables"):
-        if not rec["tally"].get(need):
-            raise vlib.ToolError("vacuous trace: %s = 0" % need)
+    # events that exist only for fonts allsorts managed to decode may be missing when (and only when) decoding
+    # failed: every failure is a Decode event the judge reports, so that is a violation, not a vacuous run
+    failures = rec["tally"].get("decode_failures", 0)
+    hard = ["no %s event recorded" % k for k in ("Dir", "Decode", "B128", "U255") if not rec["by_kind"].get(k)]
+    hard += ["%s = 0" % k for k in ("collections", "fonts_glyf_null_transform", "fonts_elided_tail_lsb_with_nhm_lt_n")
+             if not rec["tally"].get(k)]
+    vac = ["no %s event recorded" % k for k in ("Glyph", "Hmtx", "Table", "GlyfSum", "GlyfTable") if not rec["by_kind"].get(k)]
+    vac += ["%s = 0" % k for k in ("glyph_events_simple", "glyph_events_composite", "glyph_events_empty", "fixture_transformed_glyf_tables")
+            if not rec["tally"].get(k)]
+    if hard or (vac and not failures):
+        raise vlib.ToolError("vacuous trace: %s" % "; ".join(hard + vac))
+    if vac:
+        ctx.note("trace lacks events of decoded fonts (%s) because %d decodings failed; the failures are judged" % ("; ".join(vac), failures))
     # size boundaries in the trace: fonts of more than 65000 glyphs, and - whenever the repository has a glyf font
     # whose glyph count is a multiple of 32 - such a font decoded through the glyf transform
     t = rec["tally"]
@@ -364,7 +370,11 @@ def run(ctx):
             if all(v for v in want_kinds.values()):
                 break
     if len(plant) != len(want_kinds):
-        raise vlib.ToolError("could not plant corrupted events of every kind: %s" % want_kinds)
+        lacking = [k for k, v in want_kinds.items() if v is None]
+        if not failures or any(k in ("U255", "Dir") for k in lacking):
+            raise vlib.ToolError("could not plant corrupted events of every kind: %s" % want_kinds)
+        ctx.note("binding self-check: no %s event to corrupt (decoding failed %d times); the other plants are checked" % (lacking, failures))
+        want_kinds = {k: v for k, v in want_kinds.items() if v}
     with open(trace, "a") as f:
         for e in plant:
             f.write(json.dumps(e, separators=(",", ":")) + "\n")
